@@ -114,6 +114,8 @@ def run(check, ctx):
     # the evaluator's bounds checks where a native length guard protects index arithmetic
     from . import c_modes, c_ec
     c_modes.mode_tables(check, ctx, ("guard-cfb", "guard-cbc", "guard-ofb", "guard-ctr"), rule="G-c")
+    # every load and store of the native mode loops is bounds-checked by the evaluator, buffers sized exactly, block lengths 8 and 16
+    c_modes.mode_tables(check, ctx, ("ctr", "cfb", "ofb", "cbc", "ecb"), rule="M")
     from . import c_ocb
     c_ocb.ocb_tables(check, ctx, rule="G-c", groups=("guards",))
     c_ec.memory_tables(check, ctx)
